@@ -168,6 +168,7 @@ func protoSeeds() []seed {
 		{"small", "proto", false, encode(baseSmall())},
 		{"sym", "proto", false, encode(baseSym())},
 		{"full", "proto", false, encode(baseFull())},
+		{"labels", "proto", false, encode(baseLabels())},
 	}
 }
 
